@@ -129,6 +129,12 @@ class PathEvaluator:
                         is_false = s in falsy and s != t.otherwise
                         val = (not is_false) != neg
                         e2.constraints.append((de, val))
+                    else:
+                        vals = [v for v, tg in t.arms if tg == s]
+                        if s == t.otherwise:
+                            e2.constraints.append((de, ("notin", tuple(v for v, tg in t.arms if tg != s))))
+                        else:
+                            e2.constraints.append((de, ("in", tuple(vals))))
                     stack.append((s, e2, trail + [s]))
             else:
                 for s in succs:
